@@ -538,6 +538,20 @@ class Renderer:
                     rec.act(name + ":end", event)
 
                 return sf2
+            if kind == "stop_self":
+                # a lifecycle call made from inside a macrostep: the action stops its own interpreter
+                if self.async_mode:
+                    async def xf(interp, ctx, event, adef):
+                        rec.act(name, event)
+                        await interp.stop()
+
+                    return xf
+
+                def xf2(interp, ctx, event, adef):
+                    rec.act(name, event)
+                    interp.stop()
+
+                return xf2
             if kind == "raise_exc":
                 def rf(interp, ctx, event, adef):
                     rec.act(name, event)
